@@ -1,6 +1,6 @@
 (* Properties/C06.v — pinned statements only. *)
 From Boreal Require Import Base.Prelude Base.Res Model.Eval Spec.CondSem Model.EvalCost Model.Scanner Spec.RuleSetSpec
-     Proofs.LoopProofs Proofs.NoScanProofs Proofs.ScannerProofs Proofs.NoScanScannerProofs.
+     Proofs.LoopProofs Proofs.NoScanProofs Proofs.ScannerProofs Proofs.NoScanScannerProofs Proofs.ScanConfigProofs.
 
 (* The evaluation pass done before the string scan (no matches available) is sound: for every
    well-formed condition, whatever it answers other than "matches needed" is what the evaluation with
@@ -38,6 +38,15 @@ Theorem C06_scan_options_same_matches :
     wf_scanner inp sc = true -> ns_bound (s_nns sc) (s_globals sc) -> ns_bound (s_nns sc) (s_rules sc) ->
     filter er_matched (o_rules (run_scan c1 Never inp sc)) = filter er_matched (o_rules (run_scan c2 Never inp sc)).
 Proof. exact scan_options_same_matches. Qed.
+
+(* configurations that agree on include_not_matched return the very same list, and no error *)
+Theorem C06_scan_options_same_output :
+  forall c1 c2 inp sc,
+    c_cb c1 = false -> c_cb c2 = false -> c_nm c1 = c_nm c2 ->
+    wf_scanner inp sc = true -> ns_bound (s_nns sc) (s_globals sc) -> ns_bound (s_nns sc) (s_rules sc) ->
+    o_rules (run_scan c1 Never inp sc) = o_rules (run_scan c2 Never inp sc)
+    /\ o_err (run_scan c1 Never inp sc) = None /\ o_err (run_scan c2 Never inp sc) = None.
+Proof. exact scan_options_same_output. Qed.
 
 (* the connectives and quantifier accumulators are monotone in the refinement order *)
 Theorem C06_and_monotone :
@@ -84,3 +93,4 @@ Print Assumptions C06_or_monotone.
 Print Assumptions C06_for_monotone.
 Print Assumptions C06_for_list_monotone.
 Print Assumptions C06_pinned_list_iterator_refuted.
+Print Assumptions C06_scan_options_same_output.
